@@ -10,12 +10,13 @@ table = subprocess.run([sys.executable, os.path.join(V, "tools", "seeded_table.p
 sec = f'''
 ### 13.5 Seeded changes by independent sub-agents (`seeded/`)
 
-Six waves of fresh sub-agents (one agent per claimed property and wave, 54 agents) were given only the property text and
+Seven waves of fresh sub-agents (one agent per claimed property and wave, 63 agents; the C01 agent of the last wave
+found no change that the suite lets through) were given only the property text and
 a scratch worktree of /repo and asked for two changes each that break the property, keep the suite green and need
-something specific to manifest. Waves b to f were additionally told which ideas earlier agents had produced (never what
+something specific to manifest. Waves b to g were additionally told which ideas earlier agents had produced (never what
 my checks look for) and pushed towards cooperating sites, state surviving between calls, rare branches, ordering
 dependence, error paths, boundary values, tolerance, unusual-but-legal use two calls below the named mechanisms, argument forms, objects used in two places and
-interactions of two public calls, refused calls after which the same objects are used on, values computed once and reused, copies, class-level state and sizes one beyond what examples use. Every change was taken in through `tools/intake_seeded.py`: the
+interactions of two public calls, refused calls after which the same objects are used on, values computed once and reused, copies, class-level state, sizes one beyond what examples use, returned objects that are internals, identifiers and counters, array types, order among equals and shared settings objects. Every change was taken in through `tools/intake_seeded.py`: the
 patch applies to /repo HEAD, `demo.py` exits 1 with it and 0 without it, and the **full pinned suite still has all 246
 stable tests passing** with the change (`tools/baseline.py <scratch worktree>`); only then is it stored as
 `seeded/<name>/{{patch.diff,demo.py,notes.md,meta.json}}`. {n} changes were confirmed; one more (C12_d1: `_remove_node`
@@ -36,7 +37,11 @@ scheduled event to several workloads: a **refused call as a fault** - an invalid
 `replace_op` between mutation moves (C04), an out-of-range qubit position (C07), a replacement on other registers (C12) -
 after which the same objects are used on and must be what they were; plus solver / initial-state / graph objects that the
 caller keeps and reuses or edits between calls (C01, C04, C16), circuits with two-digit register indices (C12) and the
-solver's own per-generation report compared with what was observed (C19). Some misses were harness problems
+solver's own per-generation report compared with what was observed (C19). Wave g (returned internals, shared objects)
+added: a second target - a relabelled copy of the first - or a second `solve()` after a seed change inside one C10 run,
+label queries whose answers the caller then edits (C12), wrappers built from shared gate-list objects and an in-place noise
+edit of one operation of one pool circuit (C13), and a read-only look at insertion positions between moves (C04).
+Some misses were harness problems
 rather than workload gaps: a `KeyError` in my own invariant code (C12, C01: a harness error instead of a violation; the
 invariant code is now total), a starting tableau silently skipped as "constructor not judged" (C07), an index invariant that
 asked the operation under test for its own key (C12_e2: now derived independently), and an outcome scheduler that answered
